@@ -7,9 +7,14 @@ import vlib
 
 
 def parse_cases(out, tag="CASE", limit=40000):
+    """out: a TlcResult (its output file is read line by line) or a string."""
     pre = '<<"%s", ' % tag
     cases = []
-    for line in out.splitlines():
+    if hasattr(out, "path") and tag in ("CASE", "BAD"):
+        lines = (l.rstrip("\n") for l in open(out.path, errors="replace"))
+    else:
+        lines = (out.out if hasattr(out, "out") else out).splitlines()
+    for line in lines:
         if len(cases) >= limit:      # (an export far beyond what can be executed: keep memory bounded)
             break
         if line.startswith(pre) and line.endswith(">>"):
